@@ -12,6 +12,9 @@ import time
 VERIF = os.path.dirname(os.path.dirname(os.path.abspath(__file__)))
 OUT = os.path.join(VERIF, "out")          # replay files and logs written by checks (git-ignored)
 EVIDENCE = os.path.join(VERIF, "evidence")
+if os.environ.get("VERIF_REPO", "/repo") != "/repo":
+    # a run pointed at another tree (self-test, regression over seeded changes) must not overwrite the evidence of /repo
+    EVIDENCE = os.path.join(VERIF, "out", "evidence-of-other-trees")
 
 
 def log(*a):
